@@ -491,43 +491,139 @@ def case_dipole(rng):
     return f"XDip {clist(rows)} {cexp(out)}", ("Dipole", n)
 
 
-# ---------------------------------------------------------------------- setter histories on a real magnet
-def gen_history(rng):
-    h = []
+# ---------------------------------------------------------------------- setter / getter histories on a real magnet
+# a history: {"cls", "init": None | ["pol"|"mag", vec], "ops": [...]} with ops
+#   ["pol", vec|None] ["mag", vec|None]   assignments
+#   ["copy", "pol"|"mag", vec]            obj = obj.copy(polarization=vec) / copy(magnetization=vec)
+#   ["read", "pol"|"mag"] ["getJ"] ["getM"] ["copy0"]   observations through the public interface (result discarded)
+_TET = [[0.0, 0.0, 0.0], [1.0, 0.0, 0.0], [0.0, 1.0, 0.0], [0.0, 0.0, 1.0]]
+HIST_CLASSES = {
+    "Cuboid": ({"dimension": [1.0, 2.0, 3.0]}, [0.1, 0.2, 0.3]),
+    "Cylinder": ({"dimension": [2.0, 1.0]}, [0.1, 0.2, 0.1]),
+    "CylinderSegment": ({"dimension": [0.5, 1.5, 1.0, 0.0, 90.0]}, [0.7, 0.7, 0.1]),
+    "Sphere": ({"diameter": 2.0}, [0.1, 0.2, 0.3]),
+    "Tetrahedron": ({"vertices": _TET}, [0.2, 0.2, 0.2]),
+    "TriangularMesh": (None, [0.2, 0.2, 0.2]),
+}
+
+
+def hist_vec(rng):
+    return [dy(rng, -4, 4, 4) * rng.choice((1.0, 1000.0, 1e6)) for _ in range(3)]
+
+
+def gen_history(rng, cls="Cuboid"):
+    init = None if rng.random() < 0.4 else [rng.choice(("pol", "mag")), hist_vec(rng)]
+    if init is not None and all(x == 0 for x in init[1]):
+        init[1][0] = 1.0
+    ops = []
     for _ in range(rng.randint(1, 6)):
+        # observations before the next assignment: none / read pol / read mag / both (either order) / field calls
+        for _ in range(rng.choice((0, 0, 1, 1, 2, 3))):
+            ops.append(rng.choice((["read", "pol"], ["read", "mag"], ["read", "mag"], ["getJ"], ["getM"], ["copy0"])))
         k = rng.random()
-        v = None if k < 0.25 else [dy(rng, -4, 4, 4) * rng.choice((1.0, 1000.0, 1e6)) for _ in range(3)]
-        h.append(("pol" if rng.random() < 0.5 else "mag", v))
-    return h
+        if k < 0.12:
+            ops.append([rng.choice(("pol", "mag")), None])
+        elif k < 0.25:
+            ops.append(["copy", rng.choice(("pol", "mag")), hist_vec(rng)])
+        else:
+            ops.append([rng.choice(("pol", "mag")), hist_vec(rng)])
+    for _ in range(rng.choice((0, 1, 2))):
+        ops.append(rng.choice((["read", "pol"], ["read", "mag"], ["getM"])))
+    return {"cls": cls, "init": init, "ops": ops}
 
 
-def run_history(h, cls=None):
-    """returns the list of (polarization, magnetization) after each assignment; raises what the setter raises"""
+def hist_make(cls, init):
+    kw, _ = HIST_CLASSES[cls]
+    ex = {} if init is None else {("polarization" if init[0] == "pol" else "magnetization"): init[1]}
+    if cls == "TriangularMesh":
+        return magpy.magnet.TriangularMesh.from_ConvexHull(points=np.array(_TET), **ex)
+    return getattr(magpy.magnet, cls)(**kw, **ex)
+
+
+def hist_apply(obj, op, inside):
+    k = op[0]
+    if k == "pol":
+        obj.polarization = op[1]
+    elif k == "mag":
+        obj.magnetization = op[1]
+    elif k == "copy":
+        obj = obj.copy(**{("polarization" if op[1] == "pol" else "magnetization"): op[2]})
+    elif k == "copy0":
+        obj.copy()
+    elif k == "read":
+        _ = obj.polarization if op[1] == "pol" else obj.magnetization
+    elif k in ("getJ", "getM"):
+        if obj.polarization is not None:
+            (magpy.getJ if k == "getJ" else magpy.getM)(obj, inside)
+    else:
+        raise ValueError(k)
+    return obj
+
+
+def hist_run(h, upto=None):
+    """a FRESH object, the first `upto` operations (only the reads that are part of the history); returns the object"""
     import warnings
-    obj = (cls or magpy.magnet.Cuboid)()
-    states = []
     with warnings.catch_warnings():
         warnings.simplefilter("ignore")
-        for which, v in h:
-            if which == "pol":
-                obj.polarization = v
-            else:
-                obj.magnetization = v
-            states.append((None if obj.polarization is None else np.array(obj.polarization, dtype=float),
-                           None if obj.magnetization is None else np.array(obj.magnetization, dtype=float)))
-    return states
+        obj = hist_make(h["cls"], h["init"])
+        inside = HIST_CLASSES[h["cls"]][1]
+        for op in h["ops"][:len(h["ops"]) if upto is None else upto]:
+            obj = hist_apply(obj, op, inside)
+    return obj
+
+
+def hist_observe(obj, cls, mag_first=False):
+    """(polarization, magnetization, getJ inside, getM inside) through the public interface"""
+    import warnings
+    with warnings.catch_warnings():
+        warnings.simplefilter("ignore")
+        if mag_first:
+            m, p = obj.magnetization, obj.polarization
+        else:
+            p, m = obj.polarization, obj.magnetization
+        p = None if p is None else np.array(p, dtype=float)
+        m = None if m is None else np.array(m, dtype=float)
+        J = M = None
+        if p is not None and m is not None:
+            inside = HIST_CLASSES[cls][1]
+            J = np.array(magpy.getJ(obj, inside), dtype=float)
+            M = np.array(magpy.getM(obj, inside), dtype=float)
+    return p, m, J, M
 
 
 def copt(v):
     return "None" if v is None else f"(Some {cvec(v)})"
 
 
+def hist_model_ops(h):
+    ops = ([] if h["init"] is None else [[h["init"][0], h["init"][1]]]) + h["ops"]
+    out = []
+    for op in ops:
+        if op[0] in ("pol", "mag"):
+            out.append(f"({'SetPol' if op[0] == 'pol' else 'SetMag'} {copt(op[1])})")
+        elif op[0] == "copy":
+            out.append(f"({'SetPol' if op[1] == 'pol' else 'SetMag'} {copt(op[2])})")
+        else:
+            out.append("Observe")
+    return out
+
+
 def case_history(rng):
-    h = gen_history(rng)
-    st = run_history(h)
-    ops = [f"({'SetPol' if w == 'pol' else 'SetMag'} {copt(v)})" for w, v in h]
-    exp = [f"{{| e_pol := {copt(p)}; e_mag := {copt(m)} |}}" for p, m in st]
-    return f"XExc c_setter_mag c_setter_pol {clist(ops)} {clist(exp)}", ("setters", len(h))
+    """the pair read through the public getters after EVERY operation (reads included) vs the two-field model"""
+    h = gen_history(rng, rng.choice(("Cuboid", "Cuboid", "Cylinder", "Sphere", "Tetrahedron", "CylinderSegment")))
+    import warnings
+    exp = []
+    with warnings.catch_warnings():
+        warnings.simplefilter("ignore")
+        obj = hist_make(h["cls"], h["init"])
+        inside = HIST_CLASSES[h["cls"]][1]
+        if h["init"] is not None:
+            exp.append(hist_observe(obj, h["cls"], rng.random() < 0.5)[:2])
+        for op in h["ops"]:
+            obj = hist_apply(obj, op, inside)
+            exp.append(hist_observe(obj, h["cls"], rng.random() < 0.5)[:2])
+    exps = [f"{{| e_pol := {copt(p)}; e_mag := {copt(m)} |}}" for p, m in exp]
+    return f"XExc c_setter_mag c_setter_pol {clist(hist_model_ops(h))} {clist(exps)}", ("setters:" + h["cls"], len(h["ops"]))
 
 
 GENS = [case_cuboid, case_cylinder, case_segment, lambda r: case_segment(r, True), case_sphere, case_triangle,
@@ -579,7 +675,7 @@ def correspondence(ctx, built, per_gen):
             continue
         texts.append(t), kinds.append(kind)
         ctx.case(t, True)
-        ctx.bump("stub:setters")
+        ctx.bump("stub:" + kind[0])
     if texts:
         ctx.samples.append({"correspondence_case": texts[len(texts) // 3][:600]})
     if not built:
@@ -1128,63 +1224,124 @@ def search_rings(ctx, n):
 
 
 # ---------------------------------------------------------------------- attributes
-def attr_check(h, cls_name="Cuboid"):
-    """None or (index, trigger, detail): after every assignment both attributes are unset or pol = mu_0 * mag"""
-    cls = getattr(magpy.magnet, cls_name)
-    for n in range(1, len(h) + 1):
-        try:
-            st = run_history(h[:n], cls)
-        except Exception as e:   # pylint: disable=broad-except
-            return n - 1, ("None-assignment" if h[n - 1][1] is None else "vector-assignment") + ":raises", \
-                f"{h[n - 1][0]} = {h[n - 1][1]} raised {type(e).__name__}: {e}"
-        p, m = st[-1]
-        if (p is None) != (m is None):
-            return n - 1, "half-unset", f"after {h[n - 1]}: polarization = {p}, magnetization = {m}"
-        if p is None:
-            continue
-        given = np.array(h[n - 1][1], dtype=float)
-        mine = p if h[n - 1][0] == "pol" else m
-        if not np.array_equal(mine, given):
-            return n - 1, "assigned-value-lost", f"after {h[n - 1]}: attribute reads {mine.tolist()}"
-        res = float(np.abs(p - MU0 * m).max())
-        if res > RTOL * float(np.abs(p).max()):
-            return n - 1, "mu0-setter", (f"after {h[n - 1][0]} = {h[n - 1][1]}: polarization = {p.tolist()}, magnetization = "
-                                         f"{m.tolist()}, |pol - magpylib.mu_0 * mag| / |pol| = {res / float(np.abs(p).max()):.3e}")
+def last_assignment(h, n):
+    ops = ([] if h["init"] is None else [[h["init"][0], h["init"][1]]]) + h["ops"][:n]
+    for op in reversed(ops):
+        if op[0] in ("pol", "mag"):
+            return op[0], op[1]
+        if op[0] == "copy":
+            return op[1], op[2]
     return None
 
 
-ATTR_CLASSES = ["Cuboid", "Cylinder", "CylinderSegment", "Sphere", "Tetrahedron"]     # constructible without arguments
+def proportional(a, b, k, tol):
+    """a = k' * b componentwise with one k' and |k'/k - 1| < tol (the two arrays differ by a constant near k)"""
+    nz = np.abs(b) > 0
+    if not nz.any() or np.any(a[~nz] != 0):
+        return False
+    r = a[nz] / b[nz]
+    return bool(np.all(np.abs(r / r[0] - 1) < 1e-12) and abs(r[0] / k - 1) < tol)
+
+
+def attr_check_all(h):
+    """list of (step, trigger, detail), first occurrence of each trigger (the recorded constant defect `mu0-setter` must not
+    hide a stale value later in the same history).  After every prefix of the history (applied to a FRESH object, so only the reads
+    that are part of the history happen) the pair read through the getters, in either order, satisfies: both unset or
+    polarization = mu_0 * magnetization; the value assigned last reads back; getJ / getM inside agree with the attributes"""
+    n_ops = len(h["ops"])
+    found = {}
+
+    def hit(n, trig, detail):
+        found.setdefault(trig, (n, trig, detail))
+    for n in range(0 if h["init"] is not None else 1, n_ops + 1):
+        if n > 0 and h["ops"][n - 1][0] in ("read", "getJ", "getM", "copy0") and n != n_ops:
+            continue        # observed after the next assignment (or at the end)
+        opname = "init" if n == 0 else "/".join(str(x) for x in h["ops"][n - 1][:2] if not isinstance(x, list))
+        for mag_first in (False, True):
+            try:
+                obj = hist_run(h, n)
+                p, m, J, M = hist_observe(obj, h["cls"], mag_first)
+            except Exception as e:   # pylint: disable=broad-except
+                la = last_assignment(h, n)
+                hit(n, ("None-assignment" if la is not None and la[1] is None else "vector-assignment") + ":raises", 
+                    f"after {opname}: {type(e).__name__}: {e}")
+                continue
+            if (p is None) != (m is None):
+                hit(n, "half-unset", f"after {opname}: polarization = {p}, magnetization = {m}")
+                continue
+            la = last_assignment(h, n)
+            if p is None:
+                if la is not None and la[1] is not None:
+                    hit(n, "assigned-value-lost", f"after {opname}: both attributes read None")
+                    continue
+                continue
+            if la is not None and la[1] is None:
+                hit(n, "unset-value-survives", f"after {opname}: polarization = {p.tolist()}, magnetization = {m.tolist()}")
+                continue
+            if la is not None:
+                mine = p if la[0] == "pol" else m
+                if not np.array_equal(mine, np.array(la[1], dtype=float)):
+                    hit(n, "assigned-value-lost", f"after {opname}: {la[0]} was set to {la[1]} but reads {mine.tolist()}")
+                    continue
+            pn = float(np.abs(p).max())
+            res = float(np.abs(p - MU0 * m).max())
+            if res > RTOL * pn:
+                if proportional(p, m, MU0, 1e-6):
+                    hit(n, "mu0-setter", (f"after {opname}: polarization = {p.tolist()}, magnetization = {m.tolist()}, "
+                                             f"|pol - magpylib.mu_0 * mag| / |pol| = {res / pn:.3e}"))
+                else:
+                    hit(n, "values-unrelated", (f"after {opname} (read {'mag, pol' if mag_first else 'pol, mag'}): polarization = "
+                                               f"{p.tolist()} but magnetization = {m.tolist()} (stale or unrelated value)"))
+                    continue
+            if float(np.abs(J - p).max()) > RTOL * pn:
+                hit(n, "getJ-differs-from-attribute", f"after {opname}: getJ inside = {J.tolist()}, polarization = {p.tolist()}")
+                continue
+            mn = float(np.abs(m).max())
+            if float(np.abs(M - m).max()) > RTOL * mn:
+                if proportional(M, m, 1.0, 1e-6):
+                    hit(n, "mu0-setter", (f"after {opname}: getM inside = {M.tolist()} but magnetization = {m.tolist()} "
+                                             f"(relative difference {float(np.abs(M - m).max()) / mn:.3e}: two values of mu_0)"))
+                    continue
+                hit(n, "getM-differs-from-attribute", f"after {opname}: getM inside = {M.tolist()}, magnetization = {m.tolist()}")
+                continue
+    return list(found.values())
+
+
+def attr_check(h, trig=None):
+    """the first failure (of the given trigger), or None"""
+    for r in attr_check_all(h):
+        if trig is None or r[1] == trig:
+            return r
+    return None
+
+
+def shrink_history(h, trig):
+    from harness.shrink import shrink_list
+
+    def fails(ops, init=h["init"]):
+        return attr_check(dict(h, init=init, ops=ops), trig) is not None
+    ops = shrink_list(h["ops"], fails, max_steps=60)
+    small = dict(h, ops=ops)
+    if h["init"] is not None and fails(ops, None):
+        small = dict(small, init=None)
+    return small
 
 
 def search_attrs(ctx, n):
     rng = ctx.rng
+    classes = list(HIST_CLASSES)
     for t in range(n):
-        h = gen_history(rng)
-        cls_name = ATTR_CLASSES[t % len(ATTR_CLASSES)]
-        res = attr_check(h, cls_name)
-        ctx.case(("attrs", cls_name, json.dumps(h)), True)
-        ctx.bump("search:setter-history")
-        if res is not None:
-            i, trig, detail = res
-            small = [h[i]]
-            r2 = attr_check(small, cls_name)
-            if r2 is None or r2[1] != trig:
-                small = h[:i + 1]
-            ctx.impl_fail(f"attr-sync/{trig}", detail, {"kind": "attrs", "cls": cls_name, "history": small})
-    # getM of a magnet given by its magnetization returns that magnetization inside (outputs and attributes agree)
-    for t in range(max(2, n // 10)):
-        mag = [fl(rng, 1e5, 1e6) for _ in range(3)]
-        import warnings
-        with warnings.catch_warnings():
-            warnings.simplefilter("ignore")
-            src = magpy.magnet.Sphere(diameter=2, magnetization=mag)
-            Mo = np.array(magpy.getM(src, [0.1, 0.2, 0.3]), dtype=float)
-        ctx.case(("getM", json.dumps(mag)), True)
-        res = float(np.abs(Mo - np.array(mag)).max()) / max(abs(x) for x in mag)
-        if res > RTOL:
-            ctx.impl_fail("attr-sync/mu0-setter", f"Sphere(magnetization={mag}): getM inside returns {Mo.tolist()} "
-                          f"(relative difference {res:.3e}): the setter and the field code use different mu_0",
-                          {"kind": "getM", "magnetization": mag})
+        h = gen_history(rng, classes[t % len(classes)])
+        res = attr_check_all(h)
+        ctx.case(("attrs", json.dumps(h)), True)
+        ctx.bump("search:setter-history:" + h["cls"])
+        for op in h["ops"]:
+            ctx.bump("history-op:" + op[0])
+        for _, trig, detail in res:
+            small = shrink_history(h, trig)
+            r2 = attr_check(small, trig)
+            ctx.impl_fail(f"attr-sync/{trig}", f"{h['cls']}: {r2[2] if r2 else detail}; history init={small['init']} "
+                                                f"ops={json.dumps(small['ops'])[:300]}", dict(small, kind="attrs"))
 
 
 # ====================================================================== entry points
@@ -1233,8 +1390,7 @@ def replay(ctx, obj):
     elif kind == "multi":
         bad = multi_check(rp)
     elif kind == "attrs":
-        r = attr_check([tuple(x) for x in rp["history"]], rp.get("cls", "Cuboid"))
-        bad = [] if r is None else [r]
+        bad = attr_check_all(rp)
     elif kind == "getM":
         src = magpy.magnet.Sphere(diameter=2, magnetization=rp["magnetization"])
         Mo = np.array(magpy.getM(src, [0.1, 0.2, 0.3]), dtype=float)
